@@ -354,6 +354,8 @@ def main(argv):
         'bounded': bcov,
         'explanation': 'deductive obligations over the real AST (pyvc) + bounded stand-in (bcheck); see DESIGN.md',
     }
+    if undecided and level == 'proof':
+        level = 'exploration'          # this run did not re-establish the proof: only the bounded exploration speaks
     ev = {'property_id': prop, 'tier': tier, 'seed': seed, 'level': level, 'coverage': cov,
           'assumptions': trusted + assumptions + ['extraction drops: docstrings, __future__ imports, logger calls; PY2 = False'],
           'wall_s': round(wall, 2), 'violations': nviol}
@@ -368,6 +370,12 @@ def main(argv):
     if faults:
         return 3
     if undecided:
+        # the proof could not be re-established for this tree (the code left the engine's subset, a contract lost its binding, an
+        # expected obligation was not generated): nothing was refuted.  If the bounded layer ran and the property held on everything
+        # it explored, the interface's "held on everything explored" applies (exit 0; the UNDECIDED lines above and the evidence --
+        # level downgraded to exploration for this run -- say that the deductive part did not decide).  Without the bounded layer: 2.
+        if bnd is not None and not bnd.get('fault'):
+            return 0
         return 2
     return 0
 
